@@ -381,7 +381,73 @@ impl CmdBuild {
             }
         }
 
+        #[cfg(veryl_verif)]
+        if let Ok(dump) = std::env::var("VERYL_VERIF_FILELIST_DUMP") {
+            let sorted = Self::order_by_dependencies(ret.clone(), &depends);
+            Self::verif_dump_filelist(&dump, paths, &components, include_tests, &prj_namespace, &sorted);
+        }
+
         Self::order_by_dependencies(ret, &depends)
+    }
+
+    /// verif hook: writes what sort_filelist read (paths, components, toposort, tests) and what it
+    /// returned, one record per line, to the file named by VERYL_VERIF_FILELIST_DUMP.
+    #[cfg(veryl_verif)]
+    fn verif_dump_filelist(
+        dump: &str,
+        paths: &[PathSet],
+        components: &[Vec<veryl_analyzer::symbol::Symbol>],
+        include_tests: bool,
+        prj_namespace: &Namespace,
+        result: &[PathSet],
+    ) {
+        let file_of = |symbol: &veryl_analyzer::symbol::Symbol| -> String {
+            if let TokenSource::File { path, .. } = symbol.token.source {
+                format!("{path}")
+            } else {
+                "-".to_string()
+            }
+        };
+        let mut text = String::new();
+        for path in paths {
+            text.push_str(&format!("P\t{}\n", path.src.to_string_lossy()));
+        }
+        for symbols in components {
+            text.push_str(&format!(
+                "C\t{}",
+                symbols[0].namespace.included(prj_namespace) as u8
+            ));
+            for symbol in symbols {
+                text.push_str(&format!("\t{}", file_of(symbol)));
+            }
+            text.push('\n');
+        }
+        for symbol in type_dag::toposort() {
+            let mip = matches!(
+                symbol.kind,
+                SymbolKind::Module(_) | SymbolKind::Interface(_) | SymbolKind::Package(_)
+            );
+            text.push_str(&format!("T\t{}\t{}\n", mip as u8, file_of(&symbol)));
+        }
+        if include_tests {
+            for symbol in symbol_table::get_all() {
+                if matches!(symbol.kind, SymbolKind::Test(_)) {
+                    text.push_str(&format!(
+                        "X\t{}\t{}\n",
+                        symbol.namespace.included(prj_namespace) as u8,
+                        file_of(&symbol)
+                    ));
+                }
+            }
+        }
+        for path in result {
+            text.push_str(&format!("R\t{}\n", path.src.to_string_lossy()));
+        }
+        text.push_str("E\n");
+        use std::io::Write;
+        if let Ok(mut f) = std::fs::OpenOptions::new().create(true).append(true).open(dump) {
+            let _ = f.write_all(text.as_bytes());
+        }
     }
 
     /// Stable topological order: repeatedly takes the first file whose dependencies are all
